@@ -117,4 +117,39 @@ Section semilattice.
     - intros H' K' i' o' _ _ _ Hl. by apply sl_L1.
     - intros H' K1 K2 _ _ _ _. apply sl_L2.
   Qed.
+
+  Notation slreach := (reach init apply merge adm_any True).
+
+  (** C01 / C20: equal knowledge, equal state *)
+  Corollary sl_converge H s1 s2 K : slreach H s1 K → slreach H s2 K → s1 = s2.
+  Proof. intros H1 H2. by rewrite (sl_reach_spec H s1 K H1), (sl_reach_spec H s2 K H2). Qed.
+  (** C03: merge = having learned the union *)
+  Corollary sl_merge_is_union H s1 K1 s2 K2 :
+    slreach H s1 K1 → slreach H s2 K2 → merge s1 s2 = sl_spec H (K1 ∪ K2).
+  Proof. intros H1 H2. apply sl_reach_spec. by apply reach_merge. Qed.
+  (** C02: merge is commutative, associative, idempotent on reachable states *)
+  Corollary sl_merge_laws H s1 K1 s2 K2 s3 K3 :
+    slreach H s1 K1 → slreach H s2 K2 → slreach H s3 K3 →
+    merge s1 s2 = merge s2 s1 ∧ merge (merge s1 s2) s3 = merge s1 (merge s2 s3) ∧ merge s1 s1 = s1.
+  Proof.
+    intros H1 H2 H3. split_and!.
+    - rewrite (sl_merge_is_union H s1 K1 s2 K2), (sl_merge_is_union H s2 K2 s1 K1) by done.
+      by rewrite (comm_L (∪) K1 K2).
+    - assert (slreach H (merge s1 s2) (K1 ∪ K2)) as H12 by (by apply reach_merge).
+      assert (slreach H (merge s2 s3) (K2 ∪ K3)) as H23 by (by apply reach_merge).
+      rewrite (sl_merge_is_union H _ _ _ _ H12 H3), (sl_merge_is_union H _ _ _ _ H1 H23).
+      by rewrite (assoc_L (∪) K1 K2 K3).
+    - rewrite (sl_merge_is_union H s1 K1 s1 K1), (idemp_L (∪) K1) by done. symmetry. by apply sl_reach_spec.
+  Qed.
+  (** C09: duplicates and stale states are absorbed *)
+  Corollary sl_absorb H s K i r s' K' :
+    slreach H s K → slreach H s' K' →
+    (H !! i = Some r → i ∈ K → apply s (op_val r) = s) ∧ (K' ⊆ K → merge s s' = s).
+  Proof.
+    intros H1 H2. split.
+    - intros Hi HiK. assert (slreach H (apply s (op_val r)) (K ∪ {[i]})) as Ha.
+      { eapply reach_apply; [done..|]. by exists r. }
+      rewrite (sl_reach_spec _ _ _ Ha), (sl_reach_spec _ _ _ H1). f_equal. set_solver.
+    - intros Hsub. rewrite (sl_merge_is_union H s K s' K'), (sl_reach_spec _ _ _ H1) by done. f_equal. set_solver.
+  Qed.
 End semilattice.
